@@ -100,7 +100,7 @@ theorem vop2_sdwaOnly (i : Inst) (w : Nat) : (decodeVOP2 i w).sdwaOnly w := by
       · simp [Dec4.sdwaOnly, Outcome.isNotImpl]
       · split <;> simp [Dec4.sdwaOnly, Outcome.isNotImpl]
 
-theorem smem_quiet (i : Inst) (lo hi : Nat) : (decodeSMEM i lo hi).isNotImpl = false := by
+theorem smem_quiet (c : Bool) (i : Inst) (lo hi : Nat) : (decodeSMEM c i lo hi).isNotImpl = false := by
   unfold decodeSMEM
   (try simp only [])
   split <;> rfl
@@ -300,7 +300,8 @@ theorem vop2_sdwa_notImpl (i : Inst) (w w1 : Nat) (h249 : extractBits w 0 8 = 24
 
 theorem decodeCore_notImpl
     (hh : (allRows.all fun r => formats.all fun f => f.ft != r.ft || ftSizes.contains (f.ft, f.size)) = true)
-    (c : Bool) (w0 : Nat) (w1? : Option Nat) (h : decodeCore lookUp c w0 w1? = .notImpl) :
+    (hh3 : (cdna3Rows.all fun r => formats.all fun f => f.ft != r.ft || ftSizes.contains (f.ft, f.size)) = true)
+    (c : Bool) (w0 : Nat) (w1? : Option Nat) (h : decodeCore (lookUpArch c) c w0 w1? = .notImpl) :
     (matchFormat w0).map (·.ft) = some FT_VOP2 ∧ extractBits w0 0 8 = 249 ∧
       ∃ w1, w1? = some w1 ∧ sdwaUnsupported w1 = true := by
   unfold decodeCore at h
@@ -308,25 +309,28 @@ theorem decodeCore_notImpl
   | none => simp [hm] at h
   | some f =>
     simp only [hm] at h
-    cases hlk : lookUp f.ft (extractBits w0 f.opLo f.opHi) with
+    cases hlk : lookUpArch c f.ft (extractBits w0 f.opLo f.opHi) with
     | none => simp [hlk] at h
     | some row =>
       simp only [hlk] at h
-      obtain ⟨hr, hrf, _⟩ := lookUp_some hlk
+      obtain ⟨hr, hrf, _⟩ := lookUpArch_some hlk
       have hfs : (f.ft, f.size) ∈ ftSizes := by
-        have := List.all_eq_true.mp (List.all_eq_true.mp hh row hr) f (matchFormat_mem hm)
-        simpa [hrf] using this
+        rcases hr with hr | hr
+        · have := List.all_eq_true.mp (List.all_eq_true.mp hh row hr) f (matchFormat_mem hm)
+          simpa [hrf] using this
+        · have := List.all_eq_true.mp (List.all_eq_true.mp hh3 row hr) f (matchFormat_mem hm)
+          simpa [hrf] using this
       obtain ⟨h2, h249, w1, hw1, hu⟩ := decodeRow_notImpl c f row _ _ hfs h
       exact ⟨by simp [h2], h249, w1, hw1, hu⟩
 
-theorem decodeCore_sdwa (c : Bool) (w0 w1 : Nat) (f : Format) (hm : matchFormat w0 = some f)
-    (h2 : f.ft = FT_VOP2) (hrow : (lookUp f.ft (extractBits w0 f.opLo f.opHi)).isSome = true)
+theorem decodeCore_sdwa (look : Nat → Nat → Option Row) (c : Bool) (w0 w1 : Nat) (f : Format) (hm : matchFormat w0 = some f)
+    (h2 : f.ft = FT_VOP2) (hrow : (look f.ft (extractBits w0 f.opLo f.opHi)).isSome = true)
     (h249 : extractBits w0 0 8 = 249) (hu : sdwaUnsupported w1 = true) :
-    decodeCore lookUp c w0 (some w1) = .notImpl := by
+    decodeCore look c w0 (some w1) = .notImpl := by
   have hsz : f.size ≠ 8 := by
     obtain ⟨a1, _⟩ := fmt_vop2 f (matchFormat_mem hm) h2
     omega
-  cases hlk : lookUp f.ft (extractBits w0 f.opLo f.opHi) with
+  cases hlk : look f.ft (extractBits w0 f.opLo f.opHi) with
   | none => simp [hlk] at hrow
   | some row =>
     unfold decodeCore
